@@ -116,6 +116,9 @@ def gen(rng, d=0, jsonmode=True):
             for i in range(min(n, 40))]
     if not jsonmode and rng.random() < 0.4:
         keys = keys[:3] + [7, 3, 100, -2, 10 ** 12][:rng.randint(1, 5)]
+        # small ints and the keywords that are equal to them (never both in one dict), None
+        extra = rng.choice([[0, 1], [True, False], [None, 1], [0, True], [False, 1, None], [2, 0]])
+        keys = keys + extra[:rng.randint(1, len(extra))]
     rng.shuffle(keys)
     if rng.random() < 0.5:
         return {k: rng.choice([1, "v" * rng.randint(0, 12), None, 2.5, True, [], {}]) for k in keys}
@@ -143,7 +146,10 @@ def wrap(rng, value, levels):
 
 
 def sort_key(k):
-    return (0, k) if isinstance(k, (int, float)) and not isinstance(k, bool) else (1, k)
+    """numbers by value, then strings, then the keywords True / False / None by their spelling"""
+    if k is None or isinstance(k, bool):
+        return (3, str(k))
+    return (0, k) if isinstance(k, (int, float)) else (1, k)
 
 
 def typed(o):
@@ -203,6 +209,20 @@ def judge(ctx, obj, jm, case):
         return
     if "\n".join(lines) != txt:
         ctx.violation("line-iteration-differs-from-whole-text", {"lines": len(lines)}, case)
+    if len(lines) > 1:
+        # a reader takes only the first lines of a result, then the result is used as a whole text
+        try:
+            part = pp(obj, no_color=True)
+            it = iter(part)
+            for _ in range(1 + len(txt) % min(3, len(lines) - 1)):
+                next(it, None)
+            whole = str(part)
+        except Exception as err:
+            ctx.violation("printing-raises", {"type": type(err).__name__, "msg": str(err)[:150]}, case)
+            return
+        ctx.count("results_used_as_text_after_partial_iteration")
+        if whole != txt:
+            ctx.violation("text-after-partial-iteration-differs", {"got": whole[:150], "expected": txt[:150]}, case)
     try:
         # the line objects are kept first and rendered afterwards
         kept = list(pp(obj, no_color=True))
